@@ -187,15 +187,20 @@ inductive FollowRes where
   | stuck       -- as-is: the Sync goroutine blocks on the nil `errChan`, nobody ever retries
   deriving DecidableEq, Repr
 
+/-- the `done` channel of StartFollowChain: the progress callback closes it as soon as a stored beacon has a round at or
+beyond the target (`curr > targ ⇒ targ = curr`, then `curr == targ`); `upTo = 0` keeps following -/
+def progressDone (upTo : Nat) (old new : Node) : Bool :=
+  decide (upTo > 0) && (new.writes.take (new.writes.length - old.writes.length)).any fun w => decide (upTo ≤ w.stored.round)
+
 /-- the `for { go Sync; select … }` of StartFollowChain; one element of `attempts` per loop iteration -/
 def followLoop (cfg : Cfg) (self : String) (upTo : Nat) : Node → List (List Peer) → Node × FollowRes
   | n, [] => (n, .following)
   | n, ps :: rest =>
     let r := sync cfg self 0 upTo false n ps
-    match r.2.1 with
-    | .ok => (r.1, .done)
-    | .cancelled => (r.1, .cancelled)
-    | .failedAll => if cfg.followRetry then followLoop cfg self upTo r.1 rest else (r.1, .stuck)
+    if r.2.1 = .ok ∨ progressDone upTo n r.1 = true then (r.1, .done)
+    else match r.2.1 with
+      | .cancelled => (r.1, .cancelled)
+      | _ => if cfg.followRetry then followLoop cfg self upTo r.1 rest else (r.1, .stuck)
 
 /-! ### `Run`: admission of a sync request -/
 
